@@ -749,6 +749,11 @@ class introduction(Method):
             names = [name.strip() for name in data['names'].split(",")]
         else:
             names = []
+        # A new variable must not capture a variable that is free in the goal
+        goal_names = set(v.name for v in prop.get_vars())
+        for name in names:
+            assert name not in goal_names, "introduction: name %s already occurs in the goal" % name
+
         pt = intros_tac.get_proof_term(cur_item.th, args=names)
 
         cur_item.rule = "subproof"
@@ -756,9 +761,12 @@ class introduction(Method):
         state.check_proof(compute_only=True)
 
         # Test if the goal is already proved
-        for item in cur_item.subproof.items:
+        # (the last line is the conclusion of the subproof: it stays; an
+        # assumption or variable is only identified with an earlier one)
+        for item in cur_item.subproof.items[:-1]:
             new_id = state.find_goal(state.get_proof_item(item.id).th, item.id)
-            if new_id is not None:
+            if new_id is not None and \
+               (item.rule == 'sorry' or state.get_proof_item(new_id).rule == item.rule):
                 state.replace_id(item.id, new_id)
 
 
